@@ -21,8 +21,10 @@ class C20(Prop):
                    'the C compiler are outside the model',
                    'the Windows-only replacements of libc functions (erf approximation) are not the code modelled',
                    'constant ND of the uniform prior is taken from its numeric definition (the gamma-function form is not evaluated)']
-    unproved = ['loops over stations, location samples and tensors, log-domain reductions, binning and random generation of the compiled '
-                'extensions (not translated: listed per function in the evidence)',
+    unproved = ['nested loops over stations, location samples and tensors, binning and random generation of the compiled extensions (not '
+                'translated: listed per function in the evidence)',
+                'one-dimensional array reductions c_ln_normalise, c_dkl, c_dkl_uniform are translated (left folds) and evaluated against '
+                'ln_normalise / dkl of the Python path, without an equality theorem',
                 'kernels with a correspondence check but no equality theorem: cTape_MT6, cN_SDR, csingleSDR_SDR; uniform_prior_ratio in the '
                 'dimension-jump cases (equal only up to the rounding of the Beta normalisation constant)']
     rule = ('every translated kernel on 40 (thorough 600) generated argument tuples from the domain of the Python function it replaces '
@@ -31,7 +33,9 @@ class C20(Prop):
     KERNELS = ['cprobability.gaussian_pdf', 'cprobability.gaussian_cdf', 'cprobability.pol_pdf', 'cprobability.pol_prob_pdf',
                'cprobability.ar_pdf', 'cprobability.combine', 'cprobability.estimate_scale_mu_s',
                'cmcmc.gaussian_transition_ratio', 'cmcmc.uniform_prior_ratio', 'cmcmc.flat_prior_ratio', 'cmcmc.gaussian_jump_prob',
-               'cconvert.cE_gd', 'cconvert.cE_tk', 'cconvert.ctk_uv', 'cconvert.cTape_MT6', 'cconvert.csingleSDR_SDR']
+               'cconvert.cE_gd', 'cconvert.cE_tk', 'cconvert.ctk_uv', 'cconvert.cTape_MT6', 'cconvert.csingleSDR_SDR',
+               'cprobability.c_ln_normalise', 'cprobability.dkl']
+    LOOPS = {'cprobability.c_ln_normalise': ['cprobability.c_ln_normalise'], 'cprobability.dkl': ['cprobability.c_ln_normalise', 'cprobability.c_dkl']}
 
     def setup(self):
         self.report = gen_pyx.main()              # regenerate the Lean kernels from /repo's .pyx files
@@ -116,6 +120,16 @@ class C20(Prop):
                     a = [rng.uniform(-PI / 6, PI / 6), rng.uniform(-PI / 2, PI / 2), rng.uniform(0, 2 * PI), rng.random(), rng.uniform(-PI / 2, PI / 2)]
                     if rng.random() < 0.2:
                         a[0], a[1] = 0.0, 0.0
+                elif k.endswith('c_ln_normalise') or k.endswith('.dkl'):
+                    ln_ = lambda: [rng.choice([rng.uniform(-30, 3), rng.uniform(-5, 0), NEG_INF]) + sh for _ in range(nn)]
+                    nn = rng.randint(1, 12)
+                    sh = rng.choice([0.0, 0.0, -700.0, 650.0, rng.uniform(-50, 50)])
+                    p_ = ln_()
+                    if all(v == NEG_INF for v in p_):
+                        p_[0] = sh
+                    q_ = [v if v != NEG_INF else -40.0 + sh for v in ln_()]
+                    yield {'kind': 'kernel', 'kernel': k, 'args': [rng.choice([1.0, 0.5, 2.0, 1e-3])], 'p': p_, 'q': q_}
+                    continue
                 else:
                     a = [rng.uniform(0, 2 * PI), rng.uniform(0.02, PI / 2 - 0.02), rng.uniform(-PI, PI)]
                 yield {'kind': 'kernel', 'kernel': k, 'args': a}
@@ -170,6 +184,10 @@ class C20(Prop):
             pn = 1.0
             alg.alpha = {'gamma_dc': a[2], 'delta_dc': a[3], 'proposal_normalisation': pn, 'gamma': 0.1, 'delta': 0.1, 'kappa': 0.1, 'h': 0.1, 'sigma': 0.1}
             return {'v': [float(alg.jump_params({'gamma': a[0], 'delta': a[1]}))]}
+        if k.endswith('c_ln_normalise'):
+            return {'v': [float(v) for v in np.asarray(pr.ln_normalise(np.array(case['p'], dtype=float), a[0]), dtype=float).flatten()]}
+        if k.endswith('.dkl'):
+            return {'v': [float(pr.dkl(np.array(case['p'], dtype=float), np.array(case['q'], dtype=float), a[0]))]}
         if k.endswith('cE_gd'):
             g, d = conv.E_GD(np.array(a, dtype=float))
             return {'v': [float(np.asarray(g).flatten()[0]), float(np.asarray(d).flatten()[0])]}
@@ -193,6 +211,12 @@ class C20(Prop):
             return []
         k, a = case['kernel'], case['args']
         b = lambda xs: ' '.join(bits(float(v)) for v in xs)
+        if k.endswith('c_ln_normalise'):
+            return ['pyxl cprobability.c_ln_normalise %d 1 %s 1 %s' % (len(case['p']), b(case['p']), b(a))]
+        if k.endswith('.dkl'):
+            # the compiled dkl() normalises both arrays in place and then sums: three requests, chained in compare
+            return ['pyxl cprobability.c_ln_normalise %d 1 %s 1 %s' % (len(case['p']), b(case['p']), b(a)),
+                    'pyxl cprobability.c_ln_normalise %d 1 %s 1 %s' % (len(case['q']), b(case['q']), b(a))]
         if k.endswith('.combine'):
             return ['pyx cprobability.combine_mu ' + b(a), 'pyx cprobability.combine_s ' + b(a[2:4])]
         if k.endswith('.estimate_scale_mu_s'):
@@ -235,7 +259,9 @@ class C20(Prop):
 
     def _compare(self, case, impl, replies):
         if case['kind'] == 'inventory':
-            missing = [k for k in self.KERNELS if k != 'cprobability.combine' and k not in impl['translated']]
+            missing = [k for k in self.KERNELS if k != 'cprobability.combine' and k not in self.LOOPS and k not in impl['translated']]
+            for k, needs in self.LOOPS.items():
+                missing += [x for x in needs if x not in impl['translated'] and x not in missing]
             for k in ('cprobability.combine_mu', 'cprobability.combine_s'):
                 if k not in impl['translated']:
                     missing.append(k)
@@ -250,6 +276,15 @@ class C20(Prop):
                 return [('translated kernel unavailable: %s' % r, None)]
             vals += reply_floats(r)
         k = case['kernel']
+        if k.endswith('.dkl'):
+            from common import run_driver
+            n = len(case['p'])
+            pn, qn = vals[:n], vals[n:]
+            bb = lambda xs: ' '.join(bits(float(v)) for v in xs)
+            r = run_driver(['pyxl cprobability.c_dkl %d 2 %s %s 1 %s' % (n, bb(pn), bb(qn), bb(case['args']))])[0]
+            if r.startswith('bad'):
+                return [('translated kernel unavailable: %s' % r, None)]
+            vals = reply_floats(r)
         want = impl['v']
         if k.endswith('ctk_uv'):
             # the kernel leaves (u-like, v-like) in cells 5, 6 in the order tau-expression, k-expression = Python's (u, v)
